@@ -4,7 +4,7 @@
    callbacks, I/O, timer, OS-error, close() and new-loop events, any fault oracle. *)
 From Coq Require Import List Bool Arith.
 From RecordUpdate Require Import RecordSet.
-From GW Require Import Proto ProtoEvolves ProtoProps ProtoMutex ProtoAnswer ProtoTransport Callbacks CallbackGen CallbackRefine Coroutines CoroutineGen CoroutineRefine.
+From GW Require Import Proto ProtoEvolves ProtoProps ProtoMutex ProtoAnswer ProtoTransport Callbacks CallbackGen CallbackRefine Coroutines CoroutineGen CoroutineRefine FlowGen FlowFacts.
 Import ListNotations RecordSetNotations.
 
 (* never more than one open socket / connection (open = created and not yet closing) *)
@@ -77,6 +77,13 @@ Theorem C10_tcp_close_is_the_model : forall s, s_lock s = true -> s_haslock s = 
   lock_release (close_transport s) = run_steps (cl_finally tcp_close) (run_steps (cl_body tcp_close) s).
 Proof. exact tcp_close_refined. Qed.
 
+(* the user's keep-alive choice is not overridden behind their back: in the whole package the attribute `keep_alive` (of any object) is assigned by
+   InverterProtocol.__init__ (the default) and by Inverter.set_keep_alive only -- no inverter family switches it on or off around its own requests
+   (list GENERATED by tools/flow.py; user_keep_alive_sites = ["Inverter.set_keep_alive: self._protocol.keep_alive"; "InverterProtocol.__init__: self.keep_alive"],
+   Proofs/FlowFacts.v) *)
+Theorem C10_keep_alive_is_set_by_the_user_only : keep_alive_assignments = user_keep_alive_sites.
+Proof. exact keep_alive_sites_ok. Qed.
+
 Print Assumptions C10_at_most_one_open_transport.
 Print Assumptions C10_open_transport_is_referenced.
 Print Assumptions C10_nothing_open_after_request.
@@ -91,3 +98,4 @@ Print Assumptions C10_connection_lost_is_the_model.
 Print Assumptions C10_eof_received_is_the_model.
 Print Assumptions C10_ensure_lock_is_the_model.
 Print Assumptions C10_tcp_close_is_the_model.
+Print Assumptions C10_keep_alive_is_set_by_the_user_only.
